@@ -119,6 +119,31 @@ pub fn run(ctx: &Ctx) -> i32 {
         let tcs: Vec<String> = combos[i].iter().map(|&x| singles[x].clone()).collect();
         check_case(ctx, st, &tcs, s0);
     });
+    // every set of <= 3 one-character ASCII strings (341,376 + 8,128 + 128 sets): all character classes
+    // and ranges over ASCII, control characters included
+    let ascii: Vec<String> = (0u8..128).map(|b| (b as char).to_string()).collect();
+    let mut triples: Vec<[u8; 3]> = vec![];
+    for a in 0u8..128 {
+        triples.push([a, a, a]);
+        for b in a + 1..128 {
+            triples.push([a, b, b]);
+            for c in b + 1..128 {
+                triples.push([a, b, c]);
+            }
+        }
+    }
+    par_for(&ctx.run, triples.len(), |i, st| {
+        let t = triples[i];
+        let mut tcs = vec![ascii[t[0] as usize].clone()];
+        if t[1] != t[0] {
+            tcs.push(ascii[t[1] as usize].clone());
+        }
+        if t[2] != t[1] {
+            tcs.push(ascii[t[2] as usize].clone());
+        }
+        st.count("ascii_one_char_sets_exhaustive");
+        check_case(ctx, st, &tcs, s0);
+    });
     // contiguous code point runs (character class ranges a-c) incl. around '-', '^', ']' and '\\'
     let runs: Vec<(u32, u32)> = vec![(0x28, 0x30), (0x58, 0x62), (0x7a, 0x82), (0x2d, 0x2f), (0x5b, 0x5e), (0xfffd, 0x10002), (0x10fffd, 0x10ffff), (0x1b, 0x22)];
     par_for(&ctx.run, runs.len() * 8, |i, st| {
